@@ -178,6 +178,56 @@ def timerStats (var : Bool) (st : St) (rs : List U64) : Option (U64 × St × Lis
 def setRounds (r : Nat) (st : St) : Option St :=
   if 0 < r then some { st with rounds := r } else none
 
+/-! ## operation sequences -/
+
+inductive Op where
+  | nextU32
+  | nextU64
+  | fillBytes (n : Nat)
+  | timerStats (var : Bool)
+  | setRounds (r : Nat)
+  deriving DecidableEq, Repr
+
+/-- what an operation hands back to the caller -/
+inductive Res where
+  | u32 (v : U32)
+  | u64 (v : U64)
+  | bytes (bs : List U8)
+  | stats (d : U64)      -- the `i64` of `timer_stats`, as its two's-complement image
+  | unit
+  deriving DecidableEq, Repr
+
+/-- why a run stops early: the timer script ran out (the real generator would keep calling the
+    timer), or `set_rounds(0)` hit its `assert!` -/
+inductive Halt where
+  | blocked
+  | panicked
+  deriving DecidableEq, Repr
+
+def orBlocked {α : Type} : Option α → Except Halt α
+  | none => .error .blocked
+  | some a => .ok a
+
+/-- one operation: result, new state, remaining readings -/
+def stepSpec (op : Op) (st : St) (rs : List U64) : Except Halt (Res × St × List U64) :=
+  match op with
+  | .nextU32 => (orBlocked (nextU32 st rs)).map fun (v, st, rs) => (.u32 v, st, rs)
+  | .nextU64 => (orBlocked (nextU64 st rs)).map fun (v, st, rs) => (.u64 v, st, rs)
+  | .fillBytes n => (orBlocked (fillBytes n st rs)).map fun (bs, st, rs) => (.bytes bs, st, rs)
+  | .timerStats var => (orBlocked (timerStats var st rs)).map fun (d, st, rs) => (.stats d, st, rs)
+  | .setRounds r =>
+    match setRounds r st with
+    | none => .error .panicked
+    | some st => .ok (.unit, st, rs)
+
+/-- a sequence of operations: all results, final state, remaining readings -/
+def runSpec : List Op → St → List U64 → Except Halt (List Res × St × List U64)
+  | [], st, rs => .ok ([], st, rs)
+  | op :: ops, st, rs =>
+    match stepSpec op st rs with
+    | .error h => .error h
+    | .ok (r, st, rs) => (runSpec ops st rs).map fun (res, st, rs) => (r :: res, st, rs)
+
 /-! ## non-vacuity: a concrete run -/
 
 /-- rounds = 2; deltas 5, 12, 12 (stuck: first difference 0), 31, 33: the collection uses the
